@@ -450,7 +450,7 @@ pub fn run(cli: Cli) -> ! {
                 if conf.big_status {
                     bh = vec!["status-never-read", "silent", "stop-after-handshake"];
                 }
-                if !conf.proxy.is_empty() && conf.proxy != "off" {
+                if !conf.proxy.is_empty() && conf.proxy != "off" && conf.timeout <= 1_000 {
                     bh.push("late-proxy-header-then-silent");
                     bh.push("late-proxy-header-then-handshake");
                 }
